@@ -207,6 +207,23 @@ def run(ck):
             order.append('replace')
     ck.ob('WMC-apply', mod.loc(mloop), order == ['replace', 'remove', 'add'], 'within one placement: attribute replacements, then removals, then insertions ({})'.format(order),
           key='WMC-apply|order')
+    # node-side effects of a placement act on the molecule atom the link atom is matched to (the link's own keys mean nothing in the molecule)
+    def recv_text(expr, scope):
+        if isinstance(expr, ast.Name):
+            defs = [s_.value for s_ in ast.walk(scope) if isinstance(s_, ast.Assign) and u(s_.targets[0]) == expr.id]
+            return u(defs[0]) if len(defs) == 1 else u(expr)
+        return u(expr)
+    nl = [l for l in mloop.body if isinstance(l, ast.For) and u(l.iter) == 'link.nodes.items()']
+    ok = len(nl) == 1
+    if ok:
+        nv = u(nl[0].target.elts[0])
+        apps = calls_with_env(rm, lambda c: call_attr(c) == 'append' and u(c.func.value) == '_nodes_to_remove', stmts=nl[0].body)
+        upds = calls_with_env(rm, lambda c: call_attr(c) == 'update', stmts=nl[0].body)
+        ok = len(apps) == 1 and u(apps[0][0].args[0]) == 'match[{}]'.format(nv) and len(upds) == 1 and \
+            recv_text(upds[0][0].func.value, nl[0]) == 'molecule.nodes[match[{}]]'.format(nv) and u(upds[0][0].args[0]) == "node_attrs['replace']" and \
+            len(rmn_ := calls_with_env(rm, lambda c: call_attr(c) == 'remove_nodes_from')) == 1 and u(rmn_[0][0].args[0]) == '_nodes_to_remove'
+    ck.ob('WMC-apply', mod.loc(mloop), ok, 'an atom a link deletes or re-attributes is addressed as match[<link atom>] -- the molecule atom of this placement -- both when it is '
+          'queued for deletion and when its attributes are replaced', key='WMC-apply|through-match')
     rmn = calls_with_env(rm, lambda c: call_attr(c) == 'remove_nodes_from')
     lloop = [l for l in rm.body if isinstance(l, ast.For) and u(l.iter) == 'links']
     ok = len(rmn) == 1 and len(lloop) == 1 and any(rmn[0][1] is s for s in lloop[0].body) and lloop[0].body.index(rmn[0][1]) > lloop[0].body.index(mloop) \
@@ -399,4 +416,5 @@ def run(ck):
                       'PREC-specific-wins|_treat_link_interaction_atoms')
     shared.no_monomorphism(ck, [DL, MOL])
     shared.truthy_zero(ck, [DL])
+    shared.runs_every_molecule(ck, 'vermouth/processors/do_links.py', 'DoLinks', 'MPT-every-molecule')
     ck.assume('induced-ness and completeness of the networkx matcher, and "no unjustified interaction", are not decided')
